@@ -10,5 +10,6 @@ let () = Driver.main [
   { Driver.name = "e2e_pn"; run = e2e_run; judge = e2e_pn_judge };
   { Driver.name = "e2e_cid"; run = e2e_run; judge = e2e_cid_judge };
   { Driver.name = "e2e_cc"; run = e2e_run; judge = e2e_cc_judge };
+  { Driver.name = "e2e_violate"; run = e2e_run; judge = e2e_violate_judge };
   { Driver.name = "e2e_inject"; run = e2e_run; judge = e2e_inject_judge };
 ]
